@@ -75,33 +75,31 @@ def optExp (cs : List Char) : List Char × List Char :=
     else ([], cs)
   | [] => ([], [])
 
+/-- `[-+]?` -/
+def splitSign (cs : List Char) : List Char × List Char :=
+  match cs with
+  | '-' :: t => (['-'], t)
+  | '+' :: t => (['+'], t)
+  | _ => ([], cs)
+
+/-- `(?:(?:[0-9]+)(?:\.[0-9]+)?|(?:\.[0-9]+))`: once the first alternative matches, the
+    rest of the pattern is optional, so the engine never falls back to the second -/
+def matchBody (cs : List Char) : Option (List Char × List Char) :=
+  match cs with
+  | [] => none
+  | c :: t =>
+    if isDigit c then   -- [0-9]+
+      some (c :: (spanDigits t).1 ++ (optFrac (spanDigits t).2).1, (optFrac (spanDigits t).2).2)
+    else if c == '.' then
+      if (spanDigits t).1.isEmpty then none else some ('.' :: (spanDigits t).1, (spanDigits t).2)
+    else none
+
 /-- `_FLOAT_RE.match(arg)`: (matched lexeme, remainder) or none.
     `[-+]?(?:(?:0|[1-9][0-9]*)(?:\.[0-9]+)?|(?:\.[0-9]+))(?:[eE][-+]?[0-9]+)?` -/
 def matchFloat (cs : List Char) : Option (List Char × List Char) :=
-  let (sgn, r0) := match cs with
-    | '-' :: t => (['-'], t)
-    | '+' :: t => (['+'], t)
-    | _ => ([], cs)
-  let body? : Option (List Char × List Char) :=
-    match r0 with
-    | '0' :: t =>
-      let (f, r) := optFrac t
-      some ('0' :: f, r)
-    | c :: t =>
-      if isDigit c then   -- [1-9][0-9]*
-        let (d, r1) := spanDigits t
-        let (f, r) := optFrac r1
-        some (c :: d ++ f, r)
-      else if c == '.' then
-        let (d, r) := spanDigits t
-        if d.isEmpty then none else some ('.' :: d, r)
-      else none
-    | [] => none
-  match body? with
+  match matchBody (splitSign cs).2 with
   | none => none
-  | some (b, r) =>
-    let (e, r') := optExp r
-    some (sgn ++ b ++ e, r')
+  | some br => some ((splitSign cs).1 ++ br.1 ++ (optExp br.2).1, (optExp br.2).2)
 
 /-- `_BOOL_RE.match(arg)` = `^[01]` -/
 def matchBool (cs : List Char) : Option (List Char × List Char) :=
@@ -114,6 +112,11 @@ inductive Arg
   | num (lex : String)
   | flag (b : Bool)
 deriving Repr, BEq, DecidableEq
+
+/-- the characters of the argument text an `Arg` was made from -/
+def argText : Arg → List Char
+  | .num s => s.toList
+  | .flag b => if b then ['1'] else ['0']
 
 /-- is argument slot `i` (mod 7) of an arc a flag?  (generated `_ARC_ARGUMENT_TYPES`) -/
 def arcSlotIsFlag (i : Nat) : Bool :=
